@@ -53,7 +53,9 @@ fn body_strategy(max: usize) -> impl Strategy<Value = Bytes> {
 }
 
 fn part_strategy(max: usize) -> impl Strategy<Value = PartSpec> {
-    let ct = prop_oneof![4 => prop::sample::select(vec!["text/plain", "text/html", "application/octet-stream", "image/png", "application/json", "text/plain; charset=utf-8"]).prop_map(|s| s.to_string()), 1 => "[a-z]{1,8}/[a-z0-9.+-]{1,12}"];
+    let ct = prop_oneof![4 => prop::sample::select(vec!["text/plain", "text/html", "application/octet-stream", "image/png", "application/json", "text/plain; charset=utf-8"]).prop_map(|s| s.to_string()), 1 => "[a-z]{1,8}/[a-z0-9.+-]{1,12}",
+        // other members of the multipart family and near misses of the byte-range type: only multipart/byteranges means "several parts follow"
+        1 => prop::sample::select(vec!["multipart/form-data; boundary=XB", "multipart/mixed; boundary=x", "multipart/related", "Multipart/Form-Data", "multipart/x-mixed-replace", "multipart/byterange", "application/multipart/byteranges", "text/plain; note=multipart/byteranges"]).prop_map(|s| s.to_string())];
     let range = prop_oneof![
         4 => (0u64..100_000, 0u64..100_000, 0u64..100_000).prop_map(|(a, b, c)| { let mut v = [a, b, c]; v.sort(); (v[0], v[1], v[2]) }),
         1 => Just((0u64, 0u64, 0u64)),
